@@ -10,7 +10,7 @@ Q_TEST = "quote! { assert_eq!( unsafe { ::#prefix::ptr::addr_of!((*ptr).#field_n
 UNIT = {
     "name": "layout_tests",
     "env": [os.path.join(ENV, "layout_tests_env.rs")],
-    "declared_trusted": {r"external_body": 43},
+    "declared_trusted": {r"external_body": 44},
     "items": [
         # (1) per-member generator: "an assertion of the offset of every named non-bit-field member",
         #     "every asserted number equals what the C/C++ compiler computes" (clang's bit offset / 8)
@@ -40,15 +40,15 @@ UNIT = {
              ("quote! { ::#prefix::mem::align_of::<#canonical_ident>() }", "q_align_of_expr(&prefix, canonical_ident)", 1, "R4"),
              ('format!("Size of {canonical_ident}")', "msg1(canonical_ident)", 1, "R4"),
              ('format!("Alignment of {canonical_ident}")', "msg1(canonical_ident)", 1, "R4"),
-             ("if compile_time { quote! { [#align_of_err][#align_of_expr - #align]; } } else { quote! { assert_eq!(#align_of_expr, #align, #align_of_err); } }",
-              "q_check_align(compile_time, &align_of_err, &align_of_expr, align)", 1, "R4"),
+             (("let check_struct_align = if compile_time { quote! {", "} } else {"), "let check_struct_align = if compile_time { q_check_align_const({#ARGS}) } else {", 1, "R4q"),
+             (("quote! { assert_eq!(", "} };"), "q_check_align_test({#ARGS}) };", 1, "R4q"),
              # the filter_map over the fields: its closure is verified separately (field_offset_check above)
              (("self.fields() .iter() .filter_map(|field| {", "}) .collect()"), "collect_field_checks(self_, ctx, canonical_ident, compile_time, &prefix)", 1, "R5"),
              (("Some(quote! { // Use a shared MaybeUninit", "let ptr = UNINIT.as_ptr(); })"), "Some(q_uninit_decl(&prefix, canonical_ident))", 1, "R4"),
              (("result.push(quote! { #[allow(clippy::unnecessary_operation, clippy::identity_op)]", "}; });"),
-              "result.push(q_const_assert_block(&size_of_err, &size_of_expr, size, &check_struct_align, &check_field_offset));", 1, "R4"),
+              "result.push(q_const_assert_block({#ARGS}));", 1, "R4q"),
              (("result.push(quote! { #[test]", "} });"),
-              "result.push(q_test_fn(&fn_name, &uninit_decl, &size_of_expr, size, &size_of_err, &check_struct_align, &check_field_offset));", 1, "R4"),
+              "result.push(q_test_fn({#ARGS}));", 1, "R4q"),
              ("self", "self_", 1, "R18 captured self"),
          ],
          "ensures": [
@@ -72,9 +72,9 @@ UNIT = {
              ('format!("Size of template specialization: {name}")', "msg_s(&name)", 1, "R4"),
              ('format!("Align of template specialization: {name}")', "msg_s(&name)", 1, "R4"),
              (("result.push(quote! { #[allow(clippy::unnecessary_operation, clippy::identity_op)]", "}; });"),
-              "result.push(q_const_size_align(&size_of_err, &size_of_expr, size, &align_of_err, &align_of_expr, align));", 1, "R4"),
+              "result.push(q_const_size_align({#ARGS}));", 1, "R4q"),
              (("result.push(quote! { #[test]", "} });"),
-              "result.push(q_test_size_align(&fn_name, &size_of_expr, size, &size_of_err, &align_of_expr, align, &align_of_err));", 1, "R4"),
+              "result.push(q_test_size_align({#ARGS}));", 1, "R4q"),
          ],
          "ensures": [
              "({ let emit = ctx.spec_options().s_layout_tests() && !self.s_opaque(ctx, item) && !ctx.s_uses_tparams(item.s_id()) && item.s_kind().s_type().s_layout(ctx).is_some(); "
